@@ -56,6 +56,13 @@ CHECKS = {
          "sequences of length 2 (3); every signal is compared with the reference after each tick and a probe between the ff blocks shows nothing changes before the flip.",
          "Trusted: vt/irref.py tick semantics; schedule surgery on schedule_ff is compiled by the real PrepareSimPass.create_sim_tick.",
          "DESIGN.md 6.C07", "E1 E2"),
+ "C06": ("exploration",
+         "bounded exhaustive enumeration of struct type shapes x packed values vs an independent layout spec; exhaustive copy/assignment histories on two objects vs Python trees",
+         "About 900 (quick) / 7000 (thorough) bitstruct shapes (<=3 fields, nested structs, 1-d and 2-d list fields of Bits and of structs, width <= 12) are created with the "
+         "real mk_bitstruct; for every packed value (width <= 8; boundary patterns above) layout, both round trips, ==, hash, dict lookup, clone, deepcopy, @=, <<=/_flip and "
+         "independence of every leaf are checked; all histories of length <= 2 (3) of assignments/copies/in-place mutations on two objects are compared with plain value trees.",
+         "Trusted: vt/layout.py (40 lines). Widths above 12 and more than 3 fields are not covered.",
+         "DESIGN.md 6.C06", "E1 E4"),
 }
 
 NOT_YET = {}
